@@ -767,3 +767,24 @@ def control_dependence(body):
                 elif E in pdom[S] and E != S:
                     pass
     return out
+
+
+def resolve_at(body, e, bb, depth=0):
+    """Refine a resolved expression at block `bb`: a multiply-assigned local with exactly one reaching definition there is
+    replaced by that definition's value."""
+    if depth > 6:
+        return e
+    if e[0] == 'loc' and e[1] > body.arg_count:
+        rd = reaching_defs(body, e[1]).get(bb, set())
+        inblock = [(bi, si) for bi, si, k, n in body.defs.get(e[1], []) if bi == bb and k in ('assign', 'call')]
+        ds = [d for d in rd if d[0] != 'arg']
+        if not inblock and len(ds) == 1 and len(rd) == 1:
+            bi, si = ds[0]
+            r = Resolver(body)
+            if si == 't':
+                v = r.call(body.blocks[bi]['t'], bi, 0)
+            else:
+                v = r.rvalue(body.blocks[bi]['s'][si]['rv'])
+            return resolve_at(body, v, bi, depth + 1)
+        return e
+    return e
